@@ -37,7 +37,8 @@ func C12_Jobs() []string {
 		}
 		out = append(out, "post/order/"+m, "post/gated/"+m, "post/error/"+m, "post/zogissue/"+m, "post/struct/"+m, "post/slice/"+m)
 	}
-	out = append(out, "preprocess/ok", "preprocess/error", "preprocess/mismatch", "preprocess/in-struct")
+	out = append(out, "preprocess/ok", "preprocess/error", "preprocess/mismatch", "preprocess/in-struct",
+		"after-catch/post-error/parse", "after-catch/post-error/validate", "after-catch/preprocess-error/parse", "after-catch/custom/parse", "after-catch/custom/validate", "after-catch/slice-elements/parse")
 	return out
 }
 func C12_Covers() []string { return []string{"callback-ran"} }
@@ -249,6 +250,53 @@ func C12_Run(job string) {
 			}
 		}
 		v.Assert(ctxGood, "C12:ctx-values")
+		v.Cover("callback-ran")
+	case "after-catch":
+		// the same contracts when a catching sibling (whose catch need not fire) is visited first:
+		// both visit orders are explored
+		boom := errors.New("boom")
+		var d struct {
+			A int
+			N c12In
+			C int
+			P int
+		}
+		d.A, d.N, d.C, d.P = x, c12In{X: 1, Y: "s"}, 1, 1
+		catcher := z.Int().GT(0).Catch(7)
+		var errs z.ZogIssueMap
+		switch b {
+		case "post-error":
+			s := z.Struct(z.Schema{"a": catcher, "n": z.Struct(z.Schema{"x": z.Int()}).PostTransform(func(p any, c z.Ctx) error { return boom })})
+			if isV {
+				errs = s.Validate(&d)
+			} else {
+				errs = s.Parse(map[string]any{"a": x, "n": map[string]any{"x": 1}}, &d)
+			}
+			v.Assert(len(errs["n"]) == 1 && errs["n"][0].Err == boom, "C12:posttransform-error-not-reported")
+		case "preprocess-error":
+			s := z.Struct(z.Schema{"a": catcher, "p": z.Preprocess(func(s string, c z.Ctx) (int, error) { return 0, boom }, z.Int())})
+			errs = s.Parse(map[string]any{"a": x, "p": "s"}, &d)
+			v.Assert(len(errs["p"]) == 1 && errs["p"][0].Err == boom, "C12:preprocess-error-not-reported")
+		case "custom":
+			s := z.Struct(z.Schema{"a": catcher, "c": z.CustomFunc(func(p *int, c z.Ctx) bool { return false }, z.IssueCode("cf"))})
+			if isV {
+				errs = s.Validate(&d)
+			} else {
+				errs = s.Parse(map[string]any{"a": x, "c": 1}, &d)
+			}
+			v.Assert(len(errs["c"]) == 1 && errs["c"][0].Code == "cf", "C12:custom-function-result-not-reported")
+		case "slice-elements":
+			var sl []int
+			el := z.Preprocess(func(s string, c z.Ctx) (int, error) {
+				if s == "bad" {
+					return 0, boom
+				}
+				return 5, nil
+			}, z.Int().GT(0).Catch(7))
+			errs = z.Slice(el).Parse([]any{"ok", "bad", "ok"}, &sl)
+			v.Assert(len(errs["[1]"]) == 1 && errs["[1]"][0].Err == boom, "C12:preprocess-error-not-reported")
+			v.Assert(len(errs) == 2, "C12:unexpected-issues")
+		}
 		v.Cover("callback-ran")
 	case "preprocess":
 		innerCalls := 0
